@@ -195,6 +195,12 @@ def run(ctx):
             if orc:
                 stats["oracle"] += 1
                 bl, cl = orc["B_limit"], orc["C_limit"]
+                if bl is None or cl is None:
+                    # the states themselves are not finite at this composition / temperature although the coefficient is
+                    if B is not None:
+                        report(cfg, "state_nan", None, "B reported %r but the compressibility factor of real states at low density is not "
+                               "finite (samples %s)" % (B, orc.get("samples")), dict(where, oracle=orc))
+                    continue
                 # truncation error of the extrapolation: difference to the estimate with a 16 times smaller base step
                 blf, clf = num(orc.get("B_limit_fine")), num(orc.get("C_limit_fine"))
                 unc_b = 2.0 * abs(bl - blf) if blf is not None else 0.0
